@@ -372,13 +372,11 @@ Proof.
     destruct Esd as (sd & E1 & Hsd1 & Hsd2). rewrite E1 in Hr. cbn [bind] in Hr. injection Hr as <-.
     split; [|split].
     + cbn [app]. repeat (constructor; [first [assumption | apply str_of_Z_no_tab_lf | reflexivity]|]).
-      eapply Forall_impl; [|exact Htags]. cbn beta. tauto.
-    + destruct (f_tags f) as [|t ts] eqn:Et.
+      exact (proj1 Htags).
+    + destruct Htags as [_ Htl]. destruct (f_tags f) as [|t ts] eqn:Et.
       * cbn [app last]. exact Hsd2.
       * repeat (rewrite last_cons_ne by discriminate).
-        assert (Hl : (fun t => t <> [] /\ no_tab_lf t /\ no_trailing_space t) (last (t :: ts) [])).
-        { apply Forall_last; [exact Htags | discriminate]. }
-        cbn beta in Hl. apply no_trailing_space_ends; tauto.
+        apply no_trailing_space_ends; tauto.
     + eexists; reflexivity.
   - injection Hr as <-. split; [|split].
     + cbn [app]. repeat (constructor; [first [assumption | apply str_of_Z_no_tab_lf | reflexivity]|]).
@@ -1063,7 +1061,9 @@ Definition ex_agp : assembly :=
        RG (mkGap 200 (s "scaffold"));
        RF (mkFrag (-1) (s "ctg2") 5 50 0 [])]);
      (s "scaffold 2",
-      [RF (mkFrag (-1) (s "ctg:3-4") 1 10 (-1) [s "X"; s "Haplotig"])])].
+      [RF (mkFrag (-1) (s "ctg:3-4") 1 10 (-1) [s "X"; s "Haplotig"]);
+       (* an empty tag column BETWEEN two tags survives the round trip *)
+       RF (mkFrag (-1) (s "ctg4") 1 10 1 [s "Painted"; []; s "Hap2"])])].
 
 Example ex_agp_wf : agp_wf ex_agp.
 Proof. unfold agp_wf, ex_agp. cbn [a_header a_scaffolds map fst snd]. wf_solve. Qed.
